@@ -346,8 +346,8 @@ func digitSweepCase(t *mon.T, d int64) {
 		x.C = new(big.Int).Sub(nines, big.NewInt(t.Rng.Range(0, 99999)))
 	}
 	ys := []dec.D{
-		{Form: dec.Finite, Neg: x.Neg, C: new(big.Int).Mul(x.C, bTen), E: -1},                               // equal value, cohort
-		{Form: dec.Finite, Neg: x.Neg, C: new(big.Int).Add(new(big.Int).Mul(x.C, bTen), bOne), E: -1},       // slightly larger magnitude
+		{Form: dec.Finite, Neg: x.Neg, C: new(big.Int).Mul(x.C, bTen), E: -1},                                 // equal value, cohort
+		{Form: dec.Finite, Neg: x.Neg, C: new(big.Int).Add(new(big.Int).Mul(x.C, bTen), bOne), E: -1},         // slightly larger magnitude
 		{Form: dec.Finite, Neg: x.Neg, C: big.NewInt(1), E: d},                                                // 10^d: larger magnitude
 		{Form: dec.Finite, Neg: x.Neg, C: new(big.Int).Sub(new(big.Int).Mul(x.C, dec.Pow10(3)), bOne), E: -3}, // slightly smaller magnitude
 		// short coefficients with the same adjusted exponent: the whole length
